@@ -32,7 +32,10 @@ def _routine_src(r, ind=''):
                   '      integer, intent(inout) :: x(n)', '    end subroutine %s' % c['name'], '  end interface']
     L.append('  x(1) = x(1) + %d' % r.get('k', 1))
     for c in r['calls']:
-        L.append('  call %s(n, x)' % c['name'])
+        # `marks`: the callee is called once per entry, entries that are True carry `!$loki inline`
+        for mk in c.get('marks') or [False]:
+            if mk: L.append('  !$loki inline')
+            L.append('  call %s(n, x)' % c['name'])
     for m, v in r.get('gvars', []):
         L.append('  x(1) = x(1) + %s' % v)
     L.append('end subroutine %s' % r['name'])
@@ -279,6 +282,8 @@ def trafo_config(spec):
                 'options': {'suffix': spec['suffix'], 'module_suffix': spec['msuffix']}}
     if t == 'idem':
         return {'classname': 'IdemTransformation', 'module': 'loki.transformations', 'options': {}}
+    if t == 'inline':
+        return {'classname': 'InlineTransformation', 'module': 'loki.transformations.inline', 'options': {'inline_marked': True}}
     raise ValueError(t)
 
 def make_trafo(spec):
@@ -604,7 +609,7 @@ class C24(Property):
             'project (4-10 routines in modules and free files, sub-directories, mixed suffixes, calls through USE, interface blocks and '
             'implicit interfaces, module variables); e2e: `loki_transform plan` and `loki_transform convert` via click on generated project x '
             'config (mode, replicate, lib, ignore, disable, strict, enable_imports) x pipeline (duplicate/remove stage then module-wrap/'
-            'dependency stage) x FileWrite options x --root / --build / relative or symlinked --source; non-trivial = the plan appends a file '
+            'dependency stage, or InlineTransformation(inline_marked) with callees called 1-3 times under mixed `!$loki inline` marking) x FileWrite options x --root / --build / relative or symlinked --source; non-trivial = the plan appends a file '
             'whose item was created, removes fewer files than it transforms, or uses a library key; distinct = distinct outputs')
     modelled_not_verified = [
         'the effects of the transformations on the set of file items are abstract in the model (keep / create by clone / drop); that the real '
@@ -674,7 +679,19 @@ class C24(Property):
         for _ in range(120 if quick else 220):
             proj = gen_project(rng, rng.randint(4, 10))
             config = gen_config(rng, proj)
-            yield normalise_e2e({'kind': 'e2e', 'proj': proj, 'config': config, 'pipeline': gen_pipeline(rng, proj, config),
+            pipeline = gen_pipeline(rng, proj, config)
+            if rng.random() < 0.4:
+                # InlineTransformation(inline_marked): some module routines are called several times with mixed `!$loki inline`
+                # marking, in both orders (planning must keep the callee's file iff a plain call remains)
+                # (no suffixing stage afterwards: inlined INTERFACE blocks / implicit-interface calls make the conversion fail
+                # in DependencyTransformation, cf. F-C25-3)
+                tail = [sp for sp in pipeline if sp['t'] == 'idem'][:1]
+                pipeline = [{'t': 'inline'}] + tail
+                ucalls = [c for f in proj['files'] for r in f['routines'] for c in r['calls'] if c['via'] == 'use']
+                for c in rng.sample(ucalls, min(len(ucalls), rng.choice([1, 2, 3]))):
+                    c['marks'] = rng.choice([[True], [False, True], [True, False], [True, True], [False, True, False],
+                                             [True, False, True], [False, False, True]])
+            yield normalise_e2e({'kind': 'e2e', 'proj': proj, 'config': config, 'pipeline': pipeline,
                    'fw': {'suffix': rng.choice([None, None, None, '.f90', '.F90']), 'modvars': rng.random() < 0.25},
                    'rootpath': rng.random() < 0.6, 'outdir': rng.random() < 0.85, 'relative': rng.random() < 0.2,
                    'overlay': rng.random() < 0.2})
